@@ -227,9 +227,13 @@ theorem parseTerm_token (po : POps) (f : Nat) {s : Text} (h : TokenText s) :
   simp only [show ((Infix.none == Infix.plus || Infix.none == Infix.minus || Infix.none == Infix.mul || Infix.none == Infix.div) = true) = False from by decide, if_false]
   have hb : ∀ c ∈ s, c ≠ '\\' := fun c hc => (tokChar_facts (h.2 c hc)).2.2.2.2.2.2.2.1
   clear h
-  split
-  · exact absurd rfl (hb '\\' (by simp))
-  · rfl
+  have hc : s.contains '\\' = false := by
+    cases hcc : s.contains '\\' with
+    | false => rfl
+    | true =>
+      have := List.contains_iff_mem.mp hcc
+      exact absurd rfl (hb _ this)
+  simp only [hc, Bool.false_eq_true, if_false]
 
 
 
